@@ -4,6 +4,7 @@ import HappyProofs.C10.AdaptiveCredit
 import HappyProofs.C10.PropsAdaptive
 import HappyProofs.C10.EntityInv
 import HappyProofs.C10.EntityPoll
+import HappyProofs.C10.EntityCap
 import HappyProofs.C10.Distributed
 /-!
 # C10 — property theorems
@@ -504,15 +505,47 @@ example :
 example : noStallOK [⟨true, 1, false, some 1⟩] = false ∧ noStallOK [⟨true, 1, true, some 1⟩] = true ∧
     pollCoverOK [⟨false, 0, false, some 1⟩, ⟨true, 1, false, none⟩] 1 = false := by decide
 
+/-! ## the queue respects its capacity -/
+
+/-- **Capacity** (any policy — the five policies and the Inductor's gate —, any capacity incl. 0, any
+    schedule): the queue depth never exceeds the configured capacity; a request is dropped exactly when
+    it is refused while the queue is full (capacity 0: whenever it is refused), a refused request that
+    finds room is queued, a poll drops nothing; and `dropped` counts exactly the drops. -/
+theorem entity_capacity_respected {σ : Type} (P : Policy σ) (qcap : Nat) (s0 : σ) (acts : List Act) :
+    capacityOK (some qcap) 0 (Ent.ctrace P qcap (Ent.init s0) acts) = true ∧
+    (Ent.final P qcap s0 acts).queue.length ≤ qcap ∧
+    (Ent.final P qcap s0 acts).dropped.length =
+      ((Ent.ctrace P qcap (Ent.init s0) acts).filter (·.drop)).length := by
+  obtain ⟨h1, h2⟩ := cap_trace P qcap acts (Ent.init s0) (Nat.zero_le _)
+  refine ⟨h1, h2, ?_⟩
+  have := dropped_trace P qcap acts (Ent.init s0)
+  simpa [Ent.init, Ent.final] using this
+
+/-- **Unbounded queue** (`capacity = inf`, i.e. any capacity the run cannot reach): nothing is ever
+    dropped — the clause with no capacity (`none`) holds. -/
+theorem entity_unbounded_never_drops {σ : Type} (P : Policy σ) (qcap : Nat) (s0 : σ) (acts : List Act)
+    (h : acts.length ≤ qcap) :
+    capacityOK none 0 (Ent.ctrace P qcap (Ent.init s0) acts) = true :=
+  cap_trace_unbounded P qcap acts (Ent.init s0) (by simpa [Ent.init] using h)
+
+/-- capacity 0, token bucket with one token: the second and third request are refused and dropped;
+    what a limiter that buffers them anyway reports is rejected by the Spec -/
+example : Ent.ctrace (tbPolicy ⟨4, 1, 4⟩) 0 (Ent.init ⟨4, none⟩) [.req 0 0, .req 1 0, .req 2 1] =
+    [⟨true, true, false, 0⟩, ⟨true, false, true, 0⟩, ⟨true, false, true, 0⟩] := by decide
+example : capacityOK (some 0) 0 [⟨true, true, false, 0⟩, ⟨true, false, false, 1⟩] = false ∧
+    capacityOK (some 1) 0 [⟨true, true, false, 0⟩, ⟨true, false, false, 1⟩, ⟨true, false, true, 1⟩] = true ∧
+    capacityOK (some 2) 0 [⟨true, true, false, 0⟩, ⟨true, false, false, 1⟩, ⟨true, false, true, 1⟩] = false ∧
+    capacityOK none 0 [⟨true, true, false, 0⟩, ⟨true, false, false, 1⟩, ⟨true, false, true, 1⟩] = false := by decide
+
 /-! ## the distributed rate limiter -/
 
-/-- **DistributedRateLimiter, exactly once**: any number of instances, any limit and window, **any
-    interleaving** of the generators' segments: forwarded ⊎ in flight ⊎ dropped = received. -/
-theorem drl_exactly_once (W N n : Nat) (acts : List DAct) :
-    ((DRL.run W N (DRL.init n) acts).F ++ (DRL.run W N (DRL.init n) acts).I ++
-      (DRL.run W N (DRL.init n) acts).dropped).Perm (dReqIds acts) := by
-  have hi := DRL.run_inv W N acts (DRL.init n) (by intro x; simp [DRL.init, DRL.F, DRL.I])
-  have hr := DRL.run_recv W N acts (DRL.init n)
+/-- **DistributedRateLimiter, exactly once**: any number of instances, any limit, any window-id
+    function, **any interleaving** of the generators' segments: forwarded ⊎ in flight ⊎ dropped = received. -/
+theorem drl_exactly_once (wid : Nat → Nat) (N n : Nat) (acts : List DAct) :
+    ((DRL.run wid N (DRL.init n) acts).F ++ (DRL.run wid N (DRL.init n) acts).I ++
+      (DRL.run wid N (DRL.init n) acts).dropped).Perm (dReqIds acts) := by
+  have hi := DRL.run_inv wid N acts (DRL.init n) (by intro x; simp [DRL.init, DRL.F, DRL.I])
+  have hr := DRL.run_recv wid N acts (DRL.init n)
   rw [List.perm_iff_count]
   intro x
   have := hi x
@@ -520,11 +553,11 @@ theorem drl_exactly_once (W N n : Nat) (acts : List DAct) :
   simpa [DRL.init] using this
 
 /-- with distinct request ids the executable Spec predicate holds of the model's logs -/
-theorem drl_exactly_once_spec (W N n : Nat) (acts : List DAct) (hd : (dReqIds acts).Nodup) :
-    drlExactlyOnceOK (dReqIds acts) (DRL.run W N (DRL.init n) acts).F (DRL.run W N (DRL.init n) acts).dropped
-      (DRL.run W N (DRL.init n) acts).I = true := by
-  have hp := drl_exactly_once W N n acts
-  generalize DRL.run W N (DRL.init n) acts = s at *
+theorem drl_exactly_once_spec (wid : Nat → Nat) (N n : Nat) (acts : List DAct) (hd : (dReqIds acts).Nodup) :
+    drlExactlyOnceOK (dReqIds acts) (DRL.run wid N (DRL.init n) acts).F (DRL.run wid N (DRL.init n) acts).dropped
+      (DRL.run wid N (DRL.init n) acts).I = true := by
+  have hp := drl_exactly_once wid N n acts
+  generalize DRL.run wid N (DRL.init n) acts = s at *
   have hp2 : (s.F ++ s.dropped ++ s.I).Perm (dReqIds acts) := by
     refine List.Perm.trans ?_ hp
     rw [List.append_assoc, List.append_assoc]
@@ -535,28 +568,61 @@ theorem drl_exactly_once_spec (W N n : Nat) (acts : List DAct) (hd : (dReqIds ac
   refine ⟨⟨hp2.nodup_iff.mpr hd, fun x hx => hp2.mem_iff.mp hx⟩, ?_⟩
   simp only [List.length_append] at hlen; omega
 
-/-- **DistributedRateLimiter, per-window limit without overlap**: when every request's
-    read-modify-write cycle completes before the next request arrives (any instances, any times), the
-    shared counter of every window equals the number of requests forwarded in it and never exceeds the
-    global limit.  (With overlapping cycles the counter loses updates by design — the code's own
-    docstring — and the limit is not claimed.) -/
-theorem drl_sequential_window_bound (W N n : Nat) (rs : List (Nat × Nat × Nat × Nat × Nat)) (w : Nat) :
-    (DRL.serveAll W N (DRL.init n) rs).fwdWin.count w = (DRL.serveAll W N (DRL.init n) rs).count w ∧
-    (DRL.serveAll W N (DRL.init n) rs).fwdWin.count w ≤ N := by
-  have h := DRL.serveAll_seq W N rs (DRL.init n)
+/-- **Per-window limit without overlap** (any window-id function): when every request's
+    read-modify-write cycle completes before the next request arrives, the shared counter of every window
+    id equals the number of requests forwarded under it and never exceeds the global limit.  (With
+    overlapping cycles the counter loses updates by design and the limit is not claimed.) -/
+theorem drl_sequential_window_bound (wid : Nat → Nat) (N n : Nat) (rs : List (Nat × Nat × Nat × Nat × Nat))
+    (w : Nat) :
+    (DRL.serveAll wid N (DRL.init n) rs).fwdWin.count w = (DRL.serveAll wid N (DRL.init n) rs).count w ∧
+    (DRL.serveAll wid N (DRL.init n) rs).fwdWin.count w ≤ N := by
+  have h := DRL.serveAll_seq wid N rs (DRL.init n)
     ⟨rfl, fun w => by simp [DRL.init, DRL.count]⟩
   have := h.2 w
   omega
+
+/-- **Repaired (`wid = t / W`, integer nanoseconds): at most `N` forwards per aligned window**
+    `[k·W, (k+1)·W)` of arrival time, for every non-overlapping run — the fixed-window clause for the
+    distributed limiter, as the executable Spec predicate `drlWindowOK`. -/
+theorem drl_aligned_window_repaired (W N n : Nat) (rs : List (Nat × Nat × Nat × Nat × Nat)) :
+    (∀ k, cntWin W k (DRL.serveAll (aligned W) N (DRL.init n) rs).fwdArr ≤ N) ∧
+    drlWindowOK W N (DRL.serveAll (aligned W) N (DRL.init n) rs).fwdArr = true := by
+  have hg := DRL.serveAll_ghost (aligned W) N rs (DRL.init n) ⟨rfl, by intro f hf; simp [DRL.init] at hf⟩
+  have hb : ∀ k, cntWin W k (DRL.serveAll (aligned W) N (DRL.init n) rs).fwdArr ≤ N := by
+    intro k
+    rw [cntWin_eq_count, ← hg.1]
+    exact (drl_sequential_window_bound (aligned W) N n rs k).2
+  refine ⟨hb, ?_⟩
+  simp only [drlWindowOK, List.all_eq_true, decide_eq_true_eq]
+  exact fun t _ => hb _
+
+/-- what `int(now.to_seconds() // 0.1)` answers at 0.3 s (IEEE doubles: `0.3 // 0.1 = 2.0`) -/
+def drlFloatWitnessWid : Nat → Nat := widTable 100000000 [(300000000, 2)]
+
+/-- **Current (float floor division): the aligned-window limit is false.**  Window 0.1 s, limit 1, one
+    instance, store latencies 1 ms: the requests at 0.30 s and 0.35 s — both inside `[0.3 s, 0.4 s)`, not
+    overlapping — are both forwarded, because 0.30 s is counted under window id 2. -/
+theorem drl_aligned_window_current_false :
+    drlWindowOK 100000000 1
+      (DRL.serveAll drlFloatWitnessWid 1 (DRL.init 1)
+        [(0, 0, 300000000, 301000000, 302000000), (0, 1, 350000000, 351000000, 352000000)]).fwdArr = false := by
+  decide
 
 /-- two instances, limit 1, window 10 ns: served one after the other the second request of window 0 is
     rejected (globally, by the other instance's counter) and the one in window 1 forwarded; interleaved
     (both read 0 before either writes) both are forwarded — the lost update -/
 example :
-    (DRL.serveAll 10 1 (DRL.init 2) [(0, 0, 0, 1, 2), (1, 1, 3, 4, 5), (1, 2, 10, 11, 12)]).fwd.reverse =
+    (DRL.serveAll (aligned 10) 1 (DRL.init 2) [(0, 0, 0, 1, 2), (1, 1, 3, 4, 5), (1, 2, 10, 11, 12)]).fwd.reverse =
       [(0, 0, 2), (1, 2, 12)] ∧
-    (DRL.serveAll 10 1 (DRL.init 2) [(0, 0, 0, 1, 2), (1, 1, 3, 4, 5), (1, 2, 10, 11, 12)]).dropped = [1] ∧
-    (DRL.run 10 1 (DRL.init 2) [.arr 0 0 0, .arr 1 1 0, .res 0 0 1, .res 1 1 1, .res 0 0 2, .res 1 1 2]).fwd.reverse =
+    (DRL.serveAll (aligned 10) 1 (DRL.init 2) [(0, 0, 0, 1, 2), (1, 1, 3, 4, 5), (1, 2, 10, 11, 12)]).dropped = [1] ∧
+    (DRL.run (aligned 10) 1 (DRL.init 2)
+      [.arr 0 0 0, .arr 1 1 0, .res 0 0 1, .res 1 1 1, .res 0 0 2, .res 1 1 2]).fwd.reverse =
       [(0, 0, 2), (1, 1, 2)] ∧
     (dReqIds [.arr 0 0 0, .arr 1 1 0, .res 0 0 1, .res 1 1 1, .res 0 0 2, .res 1 1 2]).Nodup := by decide
+-- the same two requests under the repaired window id: the second one is rejected
+example :
+    (DRL.serveAll (aligned 100000000) 1 (DRL.init 1)
+      [(0, 0, 300000000, 301000000, 302000000), (0, 1, 350000000, 351000000, 352000000)]).fwdArr = [300000000] := by
+  decide
 
 end HappyModel.C10
